@@ -11,7 +11,10 @@ Record fdecl := { f_name : name; f_private : bool; f_ann : ty; f_default : bool;
 Inductive dkind := DDataclass | DEnum | DPlain.
 (* d_hidden: names the module of this class cannot see at run time (imported under `if TYPE_CHECKING:` only);
    the Spec does not read it: a forward reference names its class whatever the import style *)
-Record decl := { d_name : name; d_kind : dkind; d_bases : list name; d_fields : list fdecl; d_hidden : list name }.
+(* d_pyname: the class's Python __name__.  d_name identifies the class in the program; two classes of different modules may
+   share a __name__ (namesakes).  Annotations name classes by d_name: what the name denotes in the declaring module. *)
+Record decl := { d_name : name; d_kind : dkind; d_bases : list name; d_fields : list fdecl; d_hidden : list name;
+                 d_pyname : name }.
 Definition prog := list decl.
 
 Inductive ekind := EInh | EAssoc.
@@ -107,7 +110,8 @@ Definition wf_prog (p : prog) : bool :=
   && forallb (fun f => wf_field f && leaf_ok p (f_ann f)) (all_fields p)
   && forallb (fun d => forallb (fun b => match find_decl p b with
                                           | Some d' => match d_kind d' with DDataclass => true | _ => false end
-                                          | None => false end) (d_bases d)) p.
+                                          | None => false end) (d_bases d)) p
+  && forallb (fun d => Pos.eqb (d_pyname d) (d_name d)) p.      (* no two classes share a __name__ *)
 (* a forward reference to a class that is not a module-level name can only be found in the diagram *)
 Definition locals_in (cs : list name) (t : ty) : bool :=
   match seen_through t with FwdLocal n => mem n cs | _ => true end.
